@@ -743,3 +743,288 @@ Proof.
     destruct (step_release _ _ _ _ _ _ _ _ _ HI) as [Hm HI'].
     eexists. split; [apply mon_list_one; exact Hm | exact HI'].
 Qed.
+
+(* ---------- the scheduler ---------- *)
+
+Lemma pick_spec lk l : forall n pre p x q,
+  pick lk n pre l = Some (p, x, q) -> rev pre ++ l = p ++ x :: q /\ runnable lk x = true.
+Proof.
+  induction l as [|y r IH]; intros n pre p x q H; simpl in H; [discriminate|].
+  destruct (runnable lk y) eqn:Er.
+  - destruct n as [|n'].
+    + inversion H; subst. split; [reflexivity | exact Er].
+    + apply IH in H. simpl in H. rewrite <- app_assoc in H. exact H.
+  - apply IH in H. simpl in H. rewrite <- app_assoc in H. exact H.
+Qed.
+
+Lemma pick_some lk l : forall n pre,
+  (n < count_runnable lk l)%nat -> exists r, pick lk n pre l = Some r.
+Proof.
+  unfold count_runnable. induction l as [|y r IH]; intros n pre H; simpl in *; [lia|].
+  destruct (runnable lk y) eqn:Er; simpl in H.
+  - destruct n as [|n']; [eexists; reflexivity|]. apply IH. lia.
+  - apply IH. exact H.
+Qed.
+
+Lemma insert_thread_perm x l : Permutation (insert_thread x l) (x :: l).
+Proof.
+  induction l as [|y r IH]; simpl; [apply Permutation_refl|].
+  destruct (tid_leb (fst y) (fst x)); [|apply Permutation_refl].
+  eapply Permutation_trans; [apply perm_skip; exact IH | apply perm_swap].
+Qed.
+
+Lemma insert_threads_perm xs : forall l, Permutation (insert_threads xs l) (xs ++ l).
+Proof.
+  induction xs as [|x r IH]; intros l; simpl; [apply Permutation_refl|].
+  eapply Permutation_trans; [apply IH|].
+  eapply Permutation_trans; [apply Permutation_app_head; apply insert_thread_perm|].
+  apply Permutation_sym. apply Permutation_middle.
+Qed.
+
+(* the progress half: somebody can always run *)
+Lemma runnable_exists b sc lk thr nx m :
+  InvC b sc lk thr nx m -> thr <> [] -> exists x, In x thr /\ runnable lk x = true.
+Proof.
+  intros HI Hne. pose proof (i_local _ _ _ _ _ _ HI) as Hloc.
+  assert (forall x, In x thr -> (lk = false \/ holder x) -> runnable lk x = true) as Hrun.
+  { intros x Hx Hc. pose proof (proj1 (Forall_forall _ _) Hloc x Hx) as Hl.
+    unfold runnable, local, holder in *. destruct (snd x) as [h e | a | e sn r | e cur cs aps r | e r]; try reflexivity.
+    - destruct Hc as [Hc | []]. subst. reflexivity.
+    - destruct Hl as [_ Hq]. destruct cur as [|[l h | l h |] cur]; try reflexivity. discriminate Hq. }
+  destruct lk eqn:El.
+  - destruct (i_lock _ _ _ _ _ _ HI eq_refl) as [x [Hx Hh]]. exists x. split; [exact Hx | apply Hrun; auto].
+  - destruct thr as [|x r]; [contradiction|]. exists x. split; [left; reflexivity | apply Hrun; [left; reflexivity | auto]].
+Qed.
+
+Lemma count_runnable_pos lk thr x : In x thr -> runnable lk x = true -> count_runnable lk thr <> O.
+Proof.
+  intros Hx Hr. unfold count_runnable. assert (In x (filter (runnable lk) thr)) as H by (apply filter_In; auto).
+  destruct (filter (runnable lk) thr); [destruct H | simpl; lia].
+Qed.
+
+Lemma idle_ok b sc lk nx m : InvC b sc lk [] nx m -> mon_obs m OIdle = (m, []).
+Proof.
+  intros HI. cbn [mon_obs].
+  assert (forallb (fun e => match assoc_N e (m_exp m) with
+                            | Some X => memN e (m_ret m) && all_called e X (m_del m)
+                            | None => true end) (map fst (m_exp m)) = true) as H.
+  { apply forallb_forall. intros e _. destruct (assoc_N e (m_exp m)) as [X|] eqn:EX; [|reflexivity].
+    apply andb_true_iff. split.
+    - apply memN_In. destruct (i_open _ _ _ _ _ _ HI e (ex_intro _ X EX)) as [H | []]. exact H.
+    - unfold all_called. apply forallb_forall. intros i Hi. apply mem_del_In.
+      destruct (i_pend _ _ _ _ _ _ HI e X i EX Hi) as [H | []]. exact H. }
+  rewrite H. reflexivity.
+Qed.
+
+Lemma keep_cases t ts : keep t ts = [(t, ts)] \/ (ts = TRun [] /\ keep t ts = []).
+Proof. destruct ts as [| [|a r] | | |]; simpl; auto. Qed.
+
+Lemma sched_ok s m k :
+  Inv s m -> exists m', mon_list m (snd (sched s k)) = (m', []) /\ Inv (fst (sched s k)) m'.
+Proof.
+  intros HI. unfold sched. destruct (count_runnable (locked s) (threads s)) as [|n] eqn:En.
+  - assert (threads s = []) as Ht.
+    { destruct (threads s) as [|x r] eqn:E; [reflexivity | exfalso].
+      destruct (runnable_exists _ _ _ _ _ _ HI) as [y [Hy Hr]]; [rewrite E; discriminate|].
+      rewrite E in Hy. exact (count_runnable_pos _ _ _ Hy Hr En). }
+    rewrite Ht. cbn [snd fst]. exists m. split; [|exact HI].
+    apply mon_list_one. unfold Inv in HI. rewrite Ht in HI. eapply idle_ok. exact HI.
+  - destruct (pick_some (locked s) (threads s) (N.to_nat k mod S n) []) as [[[p [t ts]] q] Hp].
+    { rewrite En. apply Nat.mod_upper_bound. discriminate. }
+    rewrite Hp. cbn [snd fst]. apply pick_spec in Hp. simpl in Hp. destruct Hp as [Hsplit Hrun].
+    assert (InvC (bus s) (scripts s) (locked s) ((t, ts) :: p ++ q) (next_e s) m) as HI1.
+    { eapply InvC_perm; [|exact HI]. rewrite Hsplit. apply Permutation_sym. apply Permutation_middle. }
+    destruct (exec_ok s m t ts (p ++ q) HI1 Hrun) as [m' [Hm HI2]].
+    exists m'. split; [exact Hm|]. unfold Inv. cbn [bus scripts locked threads next_e].
+    set (ef := exec s t ts) in *.
+    destruct (keep_cases t (e_state ef)) as [Hk | [Hk1 Hk2]].
+    + rewrite Hk. eapply InvC_perm; [|exact HI2].
+      apply Permutation_sym. eapply Permutation_trans; [apply insert_threads_perm|].
+      apply Permutation_app_head. apply Permutation_sym. apply Permutation_middle.
+    + rewrite Hk2. simpl. rewrite Hk1 in HI2.
+      eapply InvC_perm; [apply Permutation_sym; apply insert_threads_perm|].
+      apply InvC_drop with (x := (t, TRun [])); [reflexivity | intros [] |].
+      eapply InvC_perm; [|exact HI2]. apply Permutation_sym. apply Permutation_middle.
+Qed.
+
+Lemma mon_list_app m a : forall b m1 m2,
+  mon_list m a = (m1, []) -> mon_list m1 b = (m2, []) -> mon_list m (a ++ b) = (m2, []).
+Proof.
+  revert m. induction a as [|o r IH]; intros m b m1 m2 Ha Hb; simpl in *.
+  - inversion Ha; subst. exact Hb.
+  - destruct (mon_obs m o) as [mo vo]. destruct (mon_list mo r) as [mr vr] eqn:Er.
+    inversion Ha; subst. apply app_eq_nil in H1. destruct H1; subst.
+    rewrite (IH mo b m1 m2 Er Hb). reflexivity.
+Qed.
+
+Lemma drain_ok fuel : forall s m,
+  Inv s m -> exists m', mon_list m (snd (drain fuel s)) = (m', []) /\ Inv (fst (drain fuel s)) m'.
+Proof.
+  induction fuel as [|f IH]; intros s m HI; simpl.
+  - exists m. split; [reflexivity | exact HI].
+  - destruct (sched_ok s m 0 HI) as [m1 [Hm1 HI1]].
+    destruct (sched s 0) as [s1 o] eqn:Es. cbn [fst snd] in *.
+    destruct (quiet_obs o).
+    + exists m1. split; assumption.
+    + destruct (IH s1 m1 HI1) as [m2 [Hm2 HI2]].
+      destruct (drain f s1) as [s2 o2]. cbn [fst snd] in *.
+      exists m2. split; [eapply mon_list_app; eassumption | exact HI2].
+Qed.
+
+Lemma InvC_add b sc lk x thr nx m :
+  claims x = [] -> local m x -> InvC b sc lk thr nx m -> InvC b sc lk (x :: thr) nx m.
+Proof.
+  intros Hc Hl HI. eapply InvC_change; [| | |exact HI].
+  - unfold all_claims. simpl. rewrite Hc. apply Permutation_refl.
+  - constructor; [exact Hl | exact (i_local _ _ _ _ _ _ HI)].
+  - intros Hlk. destruct (i_lock _ _ _ _ _ _ HI Hlk) as [y [Hy Hh]]. exists y. split; [right; exact Hy | exact Hh].
+Qed.
+
+Definition op_quiet (o : op) : bool :=
+  match o with Script Core _ a => no_pub a | _ => true end.
+
+Lemma step_ok s m o :
+  Inv s m -> op_quiet o = true ->
+  exists m', mon m o (snd (step s o)) = (m', []) /\ Inv (fst (step s o)) m'.
+Proof.
+  intros HI Hq. destruct o as [l h acts | t a | k | n]; unfold mon.
+  - (* Script *)
+    exists m. split; [reflexivity|]. unfold Inv. cbn [step fst bus scripts locked threads next_e].
+    destruct HI as [H1 H2 H3 H4 H5 H6 H7 H8 H9 H10 H11 H12]. constructor; try assumption.
+    intros c. rewrite script_of_set. destruct (item_eqb (Core, c) (l, h)) eqn:E; [|apply H12].
+    apply item_eqb_eq in E. inversion E; subst. exact Hq.
+  - (* Call *)
+    cbn [step]. destruct (has_tid (Ext t) (threads s)).
+    + exists m. split; [|exact HI]. cbn [snd mon_list mon_obs shape_ok]. rewrite N.eqb_refl. reflexivity.
+    + exists m. split; [reflexivity|]. unfold Inv. cbn [fst bus scripts locked threads next_e].
+      eapply InvC_perm; [apply Permutation_sym; apply insert_thread_perm|].
+      apply InvC_add; [reflexivity | exact I | exact HI].
+  - (* Step *)
+    destruct (sched_ok s m k HI) as [m' [Hm HI']]. cbn [step]. rewrite Hm. exists m'. split; [reflexivity | exact HI'].
+  - (* Drain *)
+    destruct (drain_ok (N.to_nat n) s m HI) as [m' [Hm HI']]. cbn [step]. rewrite Hm.
+    exists m'. split; [reflexivity | exact HI'].
+Qed.
+
+Lemma Inv_init : Inv init minit.
+Proof.
+  unfold Inv, init, minit. constructor; simpl.
+  - intros i. tauto.
+  - constructor.
+  - constructor.
+  - intros c [].
+  - constructor.
+  - intros e X i H. discriminate.
+  - intros e [X HX]. discriminate.
+  - discriminate.
+  - intros e [X HX]. discriminate.
+  - intros e [].
+  - intros e i [].
+  - intros c. reflexivity.
+Qed.
+
+Lemma run_ok ops : forall s m,
+  Inv s m -> core_quiet ops = true ->
+  accepted (judge m sinit (snd (run s ops))) = true /\ exists m', Inv (fst (run s ops)) m'.
+Proof.
+  induction ops as [|o r IH]; intros s m HI Hq; simpl.
+  - split; [reflexivity | exists m; exact HI].
+  - simpl in Hq. apply andb_true_iff in Hq. destruct Hq as [Hq1 Hq2].
+    destruct (step_ok s m o HI Hq1) as [m1 [Hm HI1]].
+    destruct (step s o) as [s1 out] eqn:Es. cbn [fst snd] in *.
+    destruct (IH s1 m1 HI1 Hq2) as [Hacc Hex].
+    destruct (run s1 r) as [s2 tr] eqn:Er. cbn [fst snd judge] in *.
+    rewrite Hm. split; [|exact Hex]. simpl. exact Hacc.
+Qed.
+
+(* ---------- statements used by Properties/C15.v ---------- *)
+
+Theorem run_accepted : forall ops,
+  core_quiet ops = true -> accepted (judge minit sinit (snd (run init ops))) = true.
+Proof. intros ops Hq. exact (proj1 (run_ok ops init minit Inv_init Hq)). Qed.
+
+(* no reachable state in which calls are unfinished and nobody can run *)
+Theorem no_deadlock : forall ops,
+  core_quiet ops = true ->
+  let s := fst (run init ops) in
+  threads s <> [] -> exists x, In x (threads s) /\ runnable (locked s) x = true.
+Proof.
+  intros ops Hq s Hne. destruct (proj2 (run_ok ops init minit Inv_init Hq)) as [m HI].
+  exact (runnable_exists _ _ _ _ _ _ HI Hne).
+Qed.
+
+(* whoever holds muHandle can always take its next step: the lock is never held across a wait *)
+Theorem holder_runs : forall ops,
+  core_quiet ops = true ->
+  let s := fst (run init ops) in
+  locked s = true -> exists x, In x (threads s) /\ holder x /\ runnable true x = true.
+Proof.
+  intros ops Hq s Hl. destruct (proj2 (run_ok ops init minit Inv_init Hq)) as [m HI].
+  destruct (i_lock _ _ _ _ _ _ HI Hl) as [x [Hx Hh]]. exists x. split; [exact Hx | split; [exact Hh|]].
+  pose proof (proj1 (Forall_forall _ _) (i_local _ _ _ _ _ _ HI) x Hx) as Hloc.
+  unfold runnable, local, holder in *. destruct (snd x) as [h e | a | e sn r | e cur cs aps r | e r]; try reflexivity; try contradiction.
+  destruct Hloc as [_ Hq']. destruct cur as [|[l h | l h |] cur]; try reflexivity. discriminate Hq'.
+Qed.
+
+Theorem bus_NoDup : forall ops, core_quiet ops = true -> NoDup (bus (fst (run init ops))).
+Proof.
+  intros ops Hq. destruct (proj2 (run_ok ops init minit Inv_init Hq)) as [m HI]. exact (i_bus _ _ _ _ _ _ HI).
+Qed.
+
+(* ---------- what acceptance by the monitor means, for any trace (model's or implementation's) ---------- *)
+
+Definition deliv_obs (out : list obs) : list (N * item) :=
+  flat_map (fun o => match o with ODeliver _ l h e => [(e, (l, h))] | _ => [] end) out.
+
+Definition deliveries (tr : list (op * list obs)) : list (N * item) :=
+  flat_map (fun p => deliv_obs (snd p)) tr.
+
+Lemma mon_obs_del m o m' :
+  mon_obs m o = (m', []) ->
+  m_del m' = rev (deliv_obs [o]) ++ m_del m /\ (NoDup (m_del m) -> NoDup (m_del m')).
+Proof.
+  destruct o as [t l h | t l h | t e | t e | t l h e | t e n | t e | | | t | t]; cbn [mon_obs deliv_obs flat_map app rev];
+    try (intros H; inversion H; subst; simpl; split; [reflexivity | auto]; fail).
+  - destruct (assoc_N e (m_exp m)); intros H; inversion H; subst; simpl; split; auto.
+  - destruct (assoc_N e (m_exp m)) as [X|]; [|intros H; discriminate].
+    destruct (mem_del e (l, h) (m_del m)) eqn:Ed.
+    + intros H. inversion H as [[Hm Hv]]. destruct (mem_item (l, h) X); discriminate.
+    + intros H. inversion H; subst. simpl. split; [reflexivity|]. intros Hn. constructor; [|exact Hn].
+      intros Hi. apply mem_del_In in Hi. congruence.
+  - destruct (assoc_N e (m_exp m)); intros H; inversion H; subst; simpl; split; auto.
+  - destruct (forallb _ _); intros H; inversion H; subst; simpl; split; auto.
+Qed.
+
+Lemma mon_list_del out : forall m m',
+  mon_list m out = (m', []) ->
+  m_del m' = rev (deliv_obs out) ++ m_del m /\ (NoDup (m_del m) -> NoDup (m_del m')).
+Proof.
+  induction out as [|o r IH]; intros m m' H; simpl in H.
+  - inversion H; subst. split; [reflexivity | auto].
+  - destruct (mon_obs m o) as [m1 v1] eqn:E1. destruct (mon_list m1 r) as [m2 v2] eqn:E2.
+    inversion H; subst. apply app_eq_nil in H2. destruct H2; subst.
+    destruct (mon_obs_del _ _ _ E1) as [Ha Hb]. destruct (IH _ _ E2) as [Hc Hd].
+    split; [|auto]. rewrite Hc, Ha. change (deliv_obs (o :: r)) with (deliv_obs [o] ++ deliv_obs r).
+    rewrite rev_app_distr, app_assoc. reflexivity.
+Qed.
+
+Lemma judge_del tr : forall m,
+  accepted (judge m sinit tr) = true -> NoDup (m_del m) -> NoDup (rev (deliveries tr) ++ m_del m).
+Proof.
+  induction tr as [|[o out] r IH]; intros m Hacc Hn; simpl in *; [exact Hn|].
+  unfold mon in Hacc. destruct (mon_list m out) as [m1 v] eqn:Em. simpl in Hacc.
+  apply andb_true_iff in Hacc. destruct Hacc as [Hv Hacc].
+  assert (v = []) as Hv0.
+  { unfold excused in Hv. destruct (shape_ok o out); simpl in Hv; [destruct v; [reflexivity | discriminate] | discriminate]. }
+  subst v. destruct (mon_list_del _ _ _ Em) as [Ha Hb].
+  specialize (IH m1 Hacc (Hb Hn)). rewrite Ha in IH.
+  unfold deliveries in *. simpl. rewrite rev_app_distr, <- app_assoc. exact IH.
+Qed.
+
+(* a trace the monitor accepts hands no event twice to the same handler *)
+Theorem accepted_once : forall tr,
+  accepted (judge minit sinit tr) = true -> NoDup (deliveries tr).
+Proof.
+  intros tr H. pose proof (judge_del tr minit H (NoDup_nil _)) as Hn. simpl in Hn.
+  rewrite app_nil_r in Hn. apply NoDup_rev in Hn. rewrite rev_involutive in Hn. exact Hn.
+Qed.
